@@ -489,3 +489,55 @@ M("t3-shift-reorder", "C17", "quiet", "src/check.rs",
                     check_or_constrain_unsigned(&mut y, UnsignedNumType::U8)?;""",
   """                    check_or_constrain_unsigned(&mut y, UnsignedNumType::U8)?;
                     expect_num_type(&x.ty, x.meta)?;""", "behaviour-preserving for acceptance: checks reordered")
+
+# ---------------------------------------------------------------- C07
+REVERT("revert-comment-hang", "C07", "fire F1", "a4bd399", "pre-fix tree: unterminated block comment loops forever")
+REVERT("revert-eof-unwrap", "C07", "fire F4", "c315b42", "pre-fix tree: peek().unwrap() at end of input")
+REVERT("revert-range-underflow", "C07", "fire F6", "a0c58da", "pre-fix tree: range_end - 1 on a token payload")
+REVERT("revert-struct-literal-mode", "C07", "fire F8", "1854dc1", "pre-fix tree: struct literal fields parsed as expressions in literal mode")
+REVERT("revert-match-hang", "C07", "fire F1", "e4f6402", "pre-fix tree: match clause loop never ends at end of input")
+M("f1-line-comment-no-eof-test", "C07", "fire F1", "src/scan.rs",
+  """                        while !(self.peek('\\n') || self.is_empty()) {""",
+  """                        while !self.peek('\\n') {""", "a line comment on the last line without newline loops forever")
+M("f2-line-comment-no-advance", "C07", "fire F2", "src/scan.rs",
+  """                        while !(self.peek('\\n') || self.is_empty()) {
+                            self.advance();
+                        }""",
+  """                        while !(self.peek('\\n') || self.is_empty()) {
+                            self.column += 1;
+                        }""", "line comments never advance")
+M("f3-prefix-caret-recursion", "C07", "fire F3", "src/parse.rs",
+  """    fn parse_unary(&mut self) -> Result<UntypedExpr, ()> {""",
+  """    fn parse_unary(&mut self) -> Result<UntypedExpr, ()> {
+        if self.peek(&TokenEnum::Caret) {
+            return self.parse_unary();
+        }""", "a prefix ^ recurses without consuming it")
+M("f4-error-location-unwrap", "C07", "fire F4", "src/parse.rs",
+  """            .map(|Token(_, meta)| meta)
+            .unwrap_or_else(|| MetaInfo {
+                start: (0, 0),
+                end: (0, 0),
+            });""",
+  """            .map(|Token(_, meta)| meta)
+            .unwrap();""", "reporting an error at the end of the input panics")
+M("f5-open-world-ops", "C07", "fire F5", "src/parse.rs",
+  """        let ops = vec![TokenEnum::DoubleEq, TokenEnum::BangEq];""",
+  """        let ops = vec![TokenEnum::DoubleEq, TokenEnum::BangEq, TokenEnum::FatArrow];""", "a == b => c reaches unreachable!()")
+M("f7-silent-expect-identifier", "C07", "fire F7", "src/parse.rs",
+  """            Ok(identifier)
+        } else {
+            self.push_error_for_next(ParseErrorEnum::ExpectedIdentifier);
+            Err(())
+        }""",
+  """            Ok(identifier)
+        } else {
+            Err(())
+        }""", "a missing identifier fails without any error: Err(vec![])")
+M("f10-tuple-accessor-off-by-one", "C07", "fire F10", "src/check.rs",
+  """                                    if *index < value_types.len() {
+                                        elem_ty = value_types[*index].clone();""",
+  """                                    if *index <= value_types.len() {
+                                        elem_ty = value_types[*index].clone();""", "t.2 = .. on a pair panics in the type checker")
+M("f1-line-comment-reorder", "C07", "quiet", "src/scan.rs",
+  """                        while !(self.peek('\\n') || self.is_empty()) {""",
+  """                        while !(self.is_empty() || self.peek('\\n')) {""", "behaviour-preserving: tests reordered")
